@@ -1,6 +1,92 @@
-(* C07 - placeholder until Proofs/SequenceFacts.v lands. *)
-From Coq Require Import List.
-From BB Require Import Base.Names.
-Theorem C07_placeholder : forall l, NoDup (uniquify l).
-Proof. exact uniquify_NoDup. Qed.
-Print Assumptions C07_placeholder.
+(* C07 - sequence consistency gate: only gap-free, homogeneous sequences produce output.
+   Only statements; every proof is `exact <lemma>` into Proofs/SequenceFacts.v. *)
+From Coq Require Import String List ZArith QArith Bool Permutation.
+From BB Require Import Base.Names Base.Num Base.PyList Model.Types Model.Blueprint Model.Forge Model.Element
+  Model.PyVal Model.Sequence Model.Output Model.Tools Proofs.SequenceFacts.
+Import ListNotations.
+
+(* the channel sorter (ints before strings) identifies exactly the channel lists that are permutations *)
+Theorem C07_sorter_perm : forall a b,
+  list_eqb chan_eqb (sort_chans a) (sort_chans b) = true <-> Permutation a b.
+Proof. exact sorter_perm. Qed.
+
+(* the position test accepts exactly the gap-free key sets, whatever the insertion order *)
+Theorem C07_positions : forall ps, positions_ok ps = true <-> (ps = [] \/ gap_free ps).
+Proof. exact positions_ok_spec. Qed.
+
+(* checkConsistency, when it returns, returns True exactly for gap-free, homogeneous sequences *)
+Theorem C07_iff : forall (E : Type) (eSR : E -> result val) (eChans : E -> result (list chan)) (s : seqT E) SRs cs b,
+  mapM eSR (avals (sdata s)) = Ok SRs -> numeric SRs ->
+  mapM eChans (avals (sdata s)) = Ok cs ->
+  check_consistency eSR eChans s = Ok b ->
+  (b = true <-> (rates_agree SRs /\ channels_agree cs /\ (sdata s = [] \/ gap_free (akeys (sdata s))))).
+Proof. exact check_iff. Qed.
+
+(* and it does return whenever a sample rate is set and every entry answers SR and channels *)
+Theorem C07_returns : forall (E : Type) (eSR : E -> result val) (eChans : E -> result (list chan)) (s : seqT E) SRs cs,
+  spec_get s key_sr <> None ->
+  mapM eSR (avals (sdata s)) = Ok SRs -> mapM eChans (avals (sdata s)) = Ok cs ->
+  exists b, check_consistency eSR eChans s = Ok b.
+Proof. exact check_returns. Qed.
+
+Theorem C07_no_rate_raises : forall (E : Type) (eSR : E -> result val) (eChans : E -> result (list chan)) (s : seqT E),
+  spec_get s key_sr = None -> check_consistency eSR eChans s = Err EKey.
+Proof. exact check_no_rate. Qed.
+
+(* the gate: on a sequence that is not consistent every producer raises - never partial output *)
+Theorem C07_gate : forall s,
+  seq_check s = Ok false ->
+  (forall d f t, seq_forge s d f t = Err EValue) /\
+  seq_channels s = Err ESeqConsistency /\
+  (forall t, seq_add s t = Err ESeqConsistency) /\
+  (forall t, seq_check t = Ok true -> seq_add t s = Err ESeqConsistency) /\
+  (forall ps cs ns ars its, repeat_and_vary s ps cs ns ars its = Err ESeqConsistency) /\
+  prepare s = Err EValue /\
+  (forall ix, pv_awg s ix = PErr EValue) /\
+  (forall fl, output_seqx s fl = PErr EValue).
+Proof. exact gate_inconsistent. Qed.
+
+(* a failing check (no rate, an entry that cannot answer) propagates to every producer as well *)
+Theorem C07_gate_error : forall s e,
+  seq_check s = Err e ->
+  (forall d f t, seq_forge s d f t = Err e) /\ seq_channels s = Err e /\ (forall t, seq_add s t = Err e) /\
+  (forall ps cs ns ars its, repeat_and_vary s ps cs ns ars its = Err e) /\ prepare s = Err e /\
+  (forall ix, pv_awg s ix = PErr e) /\ (forall fl, output_seqx s fl = PErr e).
+Proof. exact gate_error. Qed.
+
+(* required settings: a missing amplitude or sequencing entries that do not match the positions stop both
+   back ends; a missing offset stops the AWG5014 package *)
+Theorem C07_missing_amplitude : forall s chans ch,
+  seq_check s = Ok true -> first_channels s = Ok chans ->
+  list_eqb Z.eqb (sort_Z (akeys (sseq s))) (range1 (length (sdata s))) = true ->
+  In ch chans -> spec_get s (key_amp ch) = None ->
+  prepare s = Err EKey /\ (forall ix, pv_awg s ix = PErr EKey) /\ (forall fl, output_seqx s fl = PErr EKey).
+Proof. exact missing_amplitude. Qed.
+
+Theorem C07_bad_sequencing_keys : forall s,
+  seq_check s = Ok true -> (exists chans, first_channels s = Ok chans) ->
+  list_eqb Z.eqb (sort_Z (akeys (sseq s))) (range1 (length (sdata s))) = false ->
+  prepare s = Err EValue /\ (forall ix, pv_awg s ix = PErr EValue) /\ (forall fl, output_seqx s fl = PErr EValue).
+Proof. exact bad_sequencing_keys. Qed.
+
+Theorem C07_missing_offset : forall s chans els ch,
+  prepare s = Ok (chans, els) -> In ch chans -> spec_get s (key_off ch) = None ->
+  forall ix, pv_awg s ix = PErr EValue.
+Proof. exact missing_offset. Qed.
+
+(* non-vacuity: positions added as 2 then 1 are gap-free; a gap is detected *)
+Example C07_example :
+  positions_ok [2; 1]%Z = true /\ positions_ok [1; 3]%Z = false /\ gap_free [3; 1; 2]%Z /\
+  list_eqb chan_eqb (sort_chans [CStr (S_ "A"); CInt 2; CInt 1]) (sort_chans [CInt 1; CStr (S_ "A"); CInt 2]) = true.
+Proof. exact consistency_example. Qed.
+
+Print Assumptions C07_sorter_perm.
+Print Assumptions C07_positions.
+Print Assumptions C07_iff.
+Print Assumptions C07_returns.
+Print Assumptions C07_no_rate_raises.
+Print Assumptions C07_gate.
+Print Assumptions C07_gate_error.
+Print Assumptions C07_missing_amplitude.
+Print Assumptions C07_bad_sequencing_keys.
+Print Assumptions C07_missing_offset.
